@@ -23,6 +23,21 @@ CLAIMED = {
         ref="DESIGN.md section 4 C04",
         note="both deployment flavours (generated impl Contract, generated entry points); the chain's own sudo / migrate / execute paths",
     ),
+    "C10": dict(
+        text="Worlds of 2-4 dispatch-family contracts whose handlers, told by seeded scripts, call each other through Remote::executor (handle typed by the concrete contract and by `dyn Interface` incl. associated types; owned, borrowed and bare-builder forms; with and without with_funds), query each other through Remote::querier / BoundQuerier::borrowed, instantiate peers through the generated InstantiateBuilder trait with every combination of label / admin / funds / salt (build and build2), and change admins through update_admin / clear_admin; target failures and unaffordable funds included. Monitor per helper use: message kind, address = handle's address, funds exactly as set, body = the document the property prescribes; then on chain: the delivery of those bytes has the caller as sender and those funds and runs that method of that part with equal arguments; the querier's decoded value equals the target's own; the instantiated contract is of that program with that code id / label / admin and received those arguments. Exploration level.",
+        ref="DESIGN.md section 4 C10",
+        note="Empty-custom chain; 14 programs; salted address derivation itself is cw-multi-test's and not compared",
+    ),
+    "C11": dict(
+        text="Worlds on a chain with custom message and query types (hand-written chain module) over 5 programs mixing native handlers, interfaces with ExecC/QueryC associated types and interfaces written for the empty custom types under `: custom(msg)`, `: custom(query)` and `: custom(msg, query)` (also with an explicit sv::custom(Empty, Empty) attribute). Scripts make handlers return responses with 0-4 sub-messages of every CosmosMsg kind available (wasm, bank, custom, staking, distribution, ibc, gov, any) with seeded id / payload / gas limit / trigger, attributes, events, data; reply handlers catch failures so histories continue. Monitor: a bridged handler's context echo equals the chain's own view; its response reaches the chain field by field identical unless it contains a custom-typed message, in which case the chain must receive an error; never an error otherwise. Native handlers in the same histories are the control group (C02 monitor). Exploration level.",
+        ref="DESIGN.md section 4 C11",
+        note="the custom chain module is ours (journals Note messages, answers a Notes query)",
+    ),
+    "C20": dict(
+        text="Durable-format check across code replacement: scripts make contracts store Remote handles typed by any of 37 handle types (concrete contracts and `dyn Interface` parameterisations, owned and borrowed), re-load them under an unrelated type parameter and store them again, and call through handles loaded from storage; between those steps contracts are migrated to other programs (only storage survives) and raw `{\"addr\":..}` bytes are poked as left by a legacy struct. Monitor: stored bytes are exactly {\"addr\":\"<a>\"} for every parameterisation and ownership; bytes read back under any parameter give a handle to <a>, re-stored bytes are identical, calls through it address <a>. Schema-name independence is a pure clause, asserted once per process over all handle types (boot assertion, not simulation coverage). Exploration level.",
+        ref="DESIGN.md section 4 C20",
+        note="address strings are chain addresses of the world (bech32) and account addresses",
+    ),
     "C12": dict(
         text="Twin chains from one seed: world P stores the programs through the generated CodeId::store_code and is driven only through generated proxies (instantiate with label / admin / funds / salt options, exec with and without funds, query, sudo, migrate; contract and interface proxies); world R stores the same programs behind fault links and is driven only through the raw operations with JSON text composed from the SPEC (never by serialising a sylvia type). Histories of 3-12 calls with arbitrary arguments, senders (incl. non-admins), unaffordable funds, nested scripted calls and failures, block jumps. After every step: addresses, AppResponse events and data, query values, handler entries with arguments and context, helper builds, full raw storage of every contract, contract info (code id, admin, label, creator) and all balances must agree; a handler error on R must surface on P as the contract's error type with the same value; a proxy must not panic where R returns an error. Exploration level.",
         ref="DESIGN.md section 4 C12",
@@ -63,9 +78,6 @@ NA = {
 }
 
 PENDING = {
-    "C10": "check under construction in this session (remote helpers across contracts); not claimed until it runs clean",
-    "C11": "check under construction in this session (custom chain bridge); not claimed until it runs clean",
-    "C20": "check under construction in this session (stored remote handle across migrations); not claimed until it runs clean",
 }
 
 
